@@ -6,6 +6,7 @@ import (
 	"fmt"
 	"go/constant"
 	"go/types"
+	"sort"
 	"strings"
 
 	"golang.org/x/tools/go/ssa"
@@ -723,6 +724,29 @@ func (e *Env) call(x *ECall) (TV, error) {
 			ref = sBase(ref)
 		}
 		return TV{and(le(e.old.wm, ref), lt(ref, e.st.wm)), tBool}, nil
+	case "unboxptr":
+		// unboxptr(x, "T"): the *T stored in interface value x
+		if len(x.Args) != 2 {
+			return TV{}, fmt.Errorf("unboxptr takes an interface value and a type name")
+		}
+		v, err := e.eval(x.Args[0])
+		if err != nil {
+			return TV{}, err
+		}
+		lit, ok := x.Args[1].(*EStr)
+		if !ok || e.pkg == nil {
+			return TV{}, fmt.Errorf("unboxptr: second argument must be a type name string")
+		}
+		obj := e.pkg.Scope().Lookup(lit.V)
+		tn, ok := obj.(*types.TypeName)
+		if !ok {
+			return TV{}, fmt.Errorf("unboxptr: unknown type %s", lit.V)
+		}
+		pt := types.NewPointer(tn.Type())
+		key := typeKey(pt)
+		bx, ub := quote("box:"+key), quote("unbox:"+key)
+		vc.declare("box:"+key, fmt.Sprintf("(declare-fun %s (Int) Int)\n(declare-fun %s (Int) Int)", bx, ub))
+		return TV{T(SInt, "(%s %s)", ub, v.T.S), pt}, nil
 	case "typeof":
 		v, err := e.eval(x.Args[0])
 		if err != nil {
@@ -802,14 +826,54 @@ func (e *Env) recCall(m *Macro, args []TV) (TV, error) {
 	if m.RType == "bool" {
 		rsort = SBool
 	}
+	// A recursive spec function may read the heap; its application carries the
+	// current versions of the heaps its body reads as extra arguments, so that
+	// applications in different heap states are different terms.
+	if vc.recHeaps == nil {
+		vc.recHeaps = map[string][]string{}
+	}
+	if _, known := vc.recHeaps[fname]; !known {
+		vc.recHeaps[fname] = nil // breaks the recursion of the probing pass
+		saved := vc.heapReads
+		vc.heapReads = map[string]Sort{}
+		vars := map[string]TV{}
+		for i, p := range m.Params {
+			vars[p] = args[i]
+		}
+		n := *e
+		n.vars, n.fr, n.noUnfold, n.depth = vars, nil, true, e.depth+1
+		savedLines := len(vc.lines)
+		_, perr := n.eval(m.Body)
+		vc.lines = vc.lines[:savedLines]
+		var names []string
+		for h := range vc.heapReads {
+			names = append(names, h)
+		}
+		sort.Strings(names)
+		vc.heapReads = saved
+		if perr != nil {
+			delete(vc.recHeaps, fname)
+			return TV{}, fmt.Errorf("in %s: %v", m.Name, perr)
+		}
+		vc.recHeaps[fname] = names
+	}
 	var asorts, astr []string
+	for _, h := range vc.recHeaps[fname] {
+		info := vc.heapInfo[h]
+		if info == nil {
+			continue
+		}
+		ht := vc.heap(e.st, h, info.Sort)
+		asorts = append(asorts, ht.Sort)
+		astr = append(astr, ht.S)
+	}
 	for _, a := range args {
 		asorts = append(asorts, a.T.Sort)
 		astr = append(astr, a.T.S)
 	}
-	vc.declare("rec:"+fname, fmt.Sprintf("(declare-fun %s (%s) %s)", fname, strings.Join(asorts, " "), rsort))
+	vc.declare("rec:"+fname+":"+strings.Join(asorts, ","), fmt.Sprintf("(declare-fun %s (%s) %s)", fname, strings.Join(asorts, " "), rsort))
 	app := Term{"(" + fname + " " + strings.Join(astr, " ") + ")", rsort}
-	if len(args) == 0 {
+	if len(astr) == 0 {
 		app = Term{fname, rsort}
 	}
 	// one unfolding of the defining equation at these arguments ("fuel 1")
